@@ -31,6 +31,18 @@ CLAIMS = {
          "Bounds: <= 4 events (joins 2 per side), event times from a 3-value domain.", "§5 C18"),
  "C22": ("For every changelog with watermarks within the bounds, at each watermark W the real InternallyConsistentOutputStreamWrapper has emitted exactly the consolidated input records with event time <= W, never emits a record that was not in its input, and has emitted everything by end of stream.",
          "Bounds: <= 3 events, values from a 2-value domain, 3 event times.", "§5 C22"),
+ "C23": ("Partial: the real lines / csv / json datasources, driven through the real bufio.Scanner / encoding/csv / fastjson over symbolic standard-input content (stdin bridge), return exactly one record per input row in order with the row's values; the lines split function splits exactly at the separator; the stdin preview-then-reopen path yields all bytes under arbitrary read chunkings.",
+         "Bounds: content of a few symbolic bytes (see evidence); real files, parquet, real worker scheduling outside.", "§5 C23"),
+ "C24": ("For csv and json inputs of a few symbolic cells / bounded JSON shapes, every value the real datasource produces (inside and beyond the preview) matches the type the real inference reported; two known findings (silent conversion beyond the preview instead of an error) are excluded by predicate.",
+         "Bounds: cells <= 2-3 bytes, JSON depth <= 1-2; 100-row preview scaled down by harness parameters.", "§5 C24"),
+ "C25": ("For every row of values within the bounds the real JSON formatter (fastjson arena, marshal, escaping) produces a line that a reference JSON reader decodes back to the same values and structure, strings byte for byte; the CSV value formatter decodes back for scalars (NULL = empty).",
+         "Bounds: ints |x| small, strings <= 2-3 arbitrary bytes, nesting depth <= 1-2; finite float / time / duration rendering and the encoding/csv quoting layer outside; NaN/Inf rendering is a known finding.", "§5 C25"),
+ "C26": ("Values, types, schemas, records, metadata messages and both variable contexts survive the real native->proto->native converters unchanged (Compare / Equals) for all symbolic inputs within the bounds; for every function overload, the predicate repopulated by RepopulatePhysicalExpressionFunctions evaluates like the original on all symbolic arguments.",
+         "Bounds: depth <= 1, <= 2 values/frames; the JSON transport is simulated by clearing the json:\"-\" fields; protobuf wire bytes, gRPC and a live plugin are outside.", "§5 C26"),
+ "C28": ("The real ListInstalledPlugins, run over a symbolic plugin directory tree (os.ReadDir / LookupEnv bridged), reports every plugin under exactly the name after the prefix (names with dashes included) with versions in descending semver order.",
+         "Bounds: names <= 4-5 bytes over letters and '-', <= 2-3 versions from a catalogue; install-time selection and constraint resolution in cmd/root.go are outside (HTTP/JSON).", "§5 C28"),
+ "C30": ("String literals and identifiers with arbitrary symbolic content survive print -> lex (one token, same bytes); a catalogue of 61 statements covering OctoSQL's extensions survives parse -> print -> parse with an identical tree (independent dump) and identical text.",
+         "Bounds: literals <= 2-3 bytes, identifiers <= 3 bytes; statements outside the catalogue are outside.", "§5 C30"),
  "C01": ("For each query of a 14-shape single-source catalogue (WHERE, projections, DISTINCT, ORDER BY, LIMIT, subquery in FROM, WITH, COALESCE) and every table within the bounds, the real pipeline "
          "(SQL parser, logical plan, typechecker, optimizer, Materialize, execution nodes, top-level ORDER BY/LIMIT wiring) executed symbolically returns exactly the multiset (and order) a hand-written reference of SQL semantics defines.",
          "Bounds: t(a,b) 0..2 (quick) / 0..3 (thorough) rows, cells Int over all 2^64 values or NULL. Partial: catalogue queries only, Int|NULL columns only.", "§5 C01"),
